@@ -123,7 +123,7 @@ def run(ctx):
                                 break
         ctx.exhaustive.append("all ordered trees with %d nodes x every start x maxlevel in {None,-1,0..h+2} x all %d stop sets x all %d filter sets x 5 iterators" % (n, len(allsets), len(allsets)))
     # sampled sets on bigger trees
-    nrand = (6000 if T else 400) // ctx.nshards + 1
+    nrand = (100000 if T else 400) // ctx.nshards + 1
     for r in range(nrand):
         rng = ctx.rng("rand", r)
         n = rng.randint(6, 30)
@@ -150,7 +150,7 @@ def reused_predicates(ctx):
     from .. import trees as TR
 
     T = ctx.tier == "thorough"
-    nh = (3000 if T else 240) // ctx.nshards + 1
+    nh = (30000 if T else 240) // ctx.nshards + 1
     for h in range(nh):
         rng = ctx.rng("reuse", h)
         fam = TR.READ_FAMILIES[h % len(TR.READ_FAMILIES)]
